@@ -56,12 +56,12 @@ func checkC15(c *Ctx) {
 		hs := func(f *ssa.Function) []string {
 			// slices of the sha256.Sum256 result (stored in a local array) with constant bounds
 			set := map[string]bool{}
-			eachInstr(f, func(in ssa.Instruction) {
+			eachInstrDeep(f, 2, func(in ssa.Instruction, _ deepCtx) {
 				sl, ok := in.(*ssa.Slice)
 				if !ok {
 					return
 				}
-				if !strings.Contains(pathOf(sl.X), "stationPubkeyHash") && !strings.Contains(pathOf(sl.X), "sha256.Sum256(") {
+				if !hashDerived(sl.X, 0) {
 					return
 				}
 				lo, hi := "0", "len"
@@ -93,13 +93,13 @@ func checkC15(c *Ctx) {
 			fmt.Sprintf("Obfuscate slices the hash at %v but TryReveal at %v: the station derives a different key/IV than the client and no tag ever decrypts", a, b))
 		// masks on representative[31]
 		mask := func(f *ssa.Function, op token.Token) (idx string, k string) {
-			eachInstr(f, func(in ssa.Instruction) {
+			eachInstrDeep(f, 2, func(in ssa.Instruction, _ deepCtx) {
 				st, ok := in.(*ssa.Store)
 				if !ok {
 					return
 				}
 				ia, ok := st.Addr.(*ssa.IndexAddr)
-				if !ok || !strings.Contains(pathOf(ia.X), "representative") {
+				if !ok || !isRepresentative(ia.X) {
 					return
 				}
 				bo, ok := st.Val.(*ssa.BinOp)
@@ -137,8 +137,8 @@ func checkC15(c *Ctx) {
 			fmt.Sprintf("Obfuscate randomises bits %s of byte %s but TryReveal clears %s of byte %s: the revealed representative differs from the one the client generated", k1, i1, k2, i2))
 		// header split at 32
 		splits := map[string]bool{}
-		eachInstr(tr, func(in ssa.Instruction) {
-			if sl, ok := in.(*ssa.Slice); ok && (pathOf(sl.X) == "ciphertext" || pathOf(sl.X) == "cipherText") {
+		eachInstrDeep(tr, 2, func(in ssa.Instruction, d deepCtx) {
+			if sl, ok := in.(*ssa.Slice); ok && d.toRoot(pathOf(sl.X)) == P(tr, 1) {
 				if sl.Low != nil {
 					if cv, ok := constOf(sl.Low); ok {
 						splits["lo"+cv.String()] = true
@@ -478,4 +478,76 @@ func poolAliasViolations(fns []*ssa.Function) []poolAlias {
 		})
 	}
 	return out
+}
+
+// hashDerived: v is (a local holding) the SHA-256 digest of the shared secret - sha256.Sum256 itself, or the result
+// of a same-package helper that returns it.
+func hashDerived(v ssa.Value, depth int) bool {
+	if v == nil || depth > 6 {
+		return false
+	}
+	if strings.Contains(pathOf(v), "sha256.Sum256(") {
+		return true
+	}
+	switch x := v.(type) {
+	case *ssa.Alloc:
+		if x.Referrers() != nil {
+			for _, ref := range *x.Referrers() {
+				if st, ok := ref.(*ssa.Store); ok && st.Addr == ssa.Value(x) && hashDerived(st.Val, depth+1) {
+					return true
+				}
+			}
+		}
+		return x.Comment == "stationPubkeyHash"
+	case *ssa.UnOp:
+		return hashDerived(x.X, depth+1)
+	case *ssa.Extract:
+		if call, ok := x.Tuple.(*ssa.Call); ok {
+			return helperReturnsHash(call, x.Index, depth)
+		}
+	case *ssa.Call:
+		return helperReturnsHash(x, 0, depth)
+	case *ssa.Phi:
+		for _, e := range x.Edges {
+			if hashDerived(e, depth+1) {
+				return true
+			}
+		}
+	}
+	return false
+}
+
+func helperReturnsHash(call *ssa.Call, idx int, depth int) bool {
+	if calleeName(&call.Call) == "crypto/sha256.Sum256" {
+		return true
+	}
+	h := call.Call.StaticCallee()
+	if h == nil || h.Blocks == nil || !isRepoPath(fnPkgPath(h)) {
+		return false
+	}
+	found := false
+	eachInstr(h, func(in ssa.Instruction) {
+		if ret, ok := in.(*ssa.Return); ok && idx < len(ret.Results) && hashDerived(returnedValue0(ret, idx, nil), depth+1) {
+			found = true
+		}
+	})
+	return found
+}
+
+// isRepresentative: v is the local array holding the Elligator representative: named so, or handed to
+// extra25519.RepresentativeToPublicKey.
+func isRepresentative(v ssa.Value) bool {
+	if strings.Contains(pathOf(v), "representative") {
+		return true
+	}
+	al, ok := v.(*ssa.Alloc)
+	if !ok || al.Referrers() == nil {
+		return false
+	}
+	for _, ref := range *al.Referrers() {
+		if call, ok := ref.(*ssa.Call); ok && strings.HasSuffix(calleeName(&call.Call), "RepresentativeToPublicKey") && len(call.Call.Args) == 2 && call.Call.Args[1] == ssa.Value(al) {
+			return true
+		}
+	}
+	return false
 }
